@@ -44,13 +44,19 @@ def get_mask_with_key_joins(data, key_joins, subset_state, view=None):
         if getattr(other, '_recursing', False):
             continue
 
+        # Flag this dataset while we query the other one so that it is not
+        # visited again further down. The previous value has to be restored
+        # rather than reset, since a dataset joined with itself can be queried
+        # while it is already flagged.
+        recursing = getattr(data, '_recursing', False)
+
         try:
             data._recursing = True
             mask_right = other.get_mask(subset_state)
         except IncompatibleAttribute:
             continue
         finally:
-            data._recursing = False
+            data._recursing = recursing
 
         if len(cid1) == 1 and len(cid2) == 1:
 
